@@ -83,6 +83,27 @@ def run(patch, checks=None, keep=False):
     return res
 
 
+def write_meta(patch, r):
+    """Record in seeded/<id>/meta.json what was confirmed here and which checks caught the change."""
+    d = os.path.dirname(patch)
+    mp = os.path.join(d, "meta.json")
+    meta = json.load(open(mp)) if os.path.exists(mp) else {}
+    notes = open(os.path.join(d, "NOTES.md"), encoding="utf-8").read() if os.path.exists(os.path.join(d, "NOTES.md")) else ""
+    m = re.search(r"^[-*]?\s*\**(?:What (?:is|it) need(?:s|ed)[^\n]*|Needs? to manifest[^\n]*|What it needs[^\n]*)(.*?)(?=^\s*[-*] \**(?:Runs|Run|What still|Demo|`git)|\Z)", notes, re.S | re.M | re.I)
+    if m and not meta.get("needs_to_manifest"):
+        meta["needs_to_manifest"] = " ".join((m.group(0)).split())[:900]
+    meta["verified_here"] = {
+        "how": "selftest/run_mutants.py: scratch copy of /repo under /tmp, patch applied, `pytest python/test` (baseline), demo.py without and with the change, then ./run.py <check> --tier quick with VERIF_REPO=<scratch copy>; scratch copy removed",
+        "baseline_tests_with_change": r.get("baseline_tests"),
+        "demo_without_change_exit": (r.get("demo_without_change") or [None])[0],
+        "demo_with_change_exit": (r.get("demo_with_change") or [None])[0],
+        "checks_run": {c: {"exit": v["exit"], "first_line": v["first"][:200]} for c, v in r.get("checks", {}).items()},
+        "caught_by": r.get("caught_by", []),
+    }
+    with open(mp, "w") as f:
+        json.dump(meta, f, indent=1, ensure_ascii=False)
+
+
 def main():
     args = [a for a in sys.argv[1:] if not a.startswith("--")]
     allc = "--all-checks" in sys.argv
@@ -94,6 +115,8 @@ def main():
         checks = ["C%02d" % i for i in range(1, 20)] if allc else None
         r = run(p, checks)
         results.append(r)
+        if "--write-meta" in sys.argv and os.path.basename(p) == "patch.diff":
+            write_meta(p, r)
         print(json.dumps(r))
         sys.stdout.flush()
     out = [a.split("=", 1)[1] for a in sys.argv[1:] if a.startswith("--matrix=")]
